@@ -23,6 +23,10 @@ import (
 //   B x r0 step n E        for i<n: draw rune r0+i*step alone at column x, then CanDisplay(r,false/true)       → b:<hex>/<cd0><cd1>,…
 //   C r flag E             CanDisplay(r, flag)                                                                  → c:0|1
 //   R r hex | U r          RegisterRuneFallback / UnregisterRuneFallback
+//   X                      switch to the OTHER screen of the case (same entry, charset and width on its own tty; it is created
+//                          and initialised at the first X): every op acts on the current screen only, each screen starts
+//                          with the default fallbacks (runes.go RuneFallbacks as shipped) — "RegisterRuneFallback /
+//                          UnregisterRuneFallback take effect at the next draw" of THAT screen
 // E lists, for the runes of the op in order, what the charset's encoder reports when called **directly** (not through
 // tcell's draw code): hex of nb[:dst], "!" appended when it returned an error.  The Lean model is evaluated with these values.
 // The screen is a real terminfo screen on a FakeTty; the charset comes from LC_ALL (Init reads the environment).
@@ -62,17 +66,29 @@ var termAcsGlyph = map[byte]rune{
 // runes for which terminfo(5) defines nothing but VT100 terminals have glyphs (names b c d e): the oracle accepts either outcome
 var acsVt100Only = map[rune]bool{0x2409: true, 0x240a: true, 0x240b: true, 0x240c: true, 0x240d: true}
 
+// the default fallback table as shipped (runes.go), copied before any screen exists: what every new screen starts with
+var defaultRuneFallbacks = func() map[rune]string {
+	m := map[rune]string{}
+	for k, v := range tcell.RuneFallbacks {
+		m[k] = v
+	}
+	return m
+}()
+
 type codec struct {
 	enc, dec transform.Transformer
 	utf8     bool
 }
 
+// newCodec: the reference encoder / decoder of a charset NAME.  It comes from the harness's own name table
+// (refcharsets.go), never from tcell.GetEncoding: the registry of the code under test is part of what is judged (a name
+// registered with another charset's table).  nil when the name is unknown to either side.
 func newCodec(charset string) *codec {
-	e := tcell.GetEncoding(charset)
-	if e == nil {
+	e := refEncoding(charset)
+	if e == nil || tcell.GetEncoding(charset) == nil {
 		return nil
 	}
-	return &codec{enc: e.NewEncoder(), dec: e.NewDecoder(), utf8: strings.EqualFold(charset, "UTF-8")}
+	return &codec{enc: e.NewEncoder(), dec: e.NewDecoder(), utf8: refIsUTF8(charset)}
 }
 
 // encode calls the external encoder directly, exactly like encoder.Transform(nb, utf8(r), true) on a fresh buffer.
@@ -440,9 +456,11 @@ func execEnc(line string) h.Result {
 	}
 	defer scr.Fini()
 	e := &encRun{scr: scr, tty: tty, ti: src, cd: cd, tw: tw, refs: map[int][2][]byte{}, fb: map[rune]string{}, res: &res, tags: map[string]bool{}}
-	for k, v := range tcell.RuneFallbacks {
+	for k, v := range defaultRuneFallbacks {
 		e.fb[k] = v
 	}
+	// the other screen of the case (op X)
+	var other *encRun
 	if !strings.EqualFold(scr.CharacterSet(), charset) {
 		res.Findings = append(res.Findings, h.Finding{Class: "locale-charset", Msg: fmt.Sprintf("LC_ALL=xx_XX.%s but CharacterSet()=%q", charset, scr.CharacterSet())})
 	}
@@ -451,6 +469,28 @@ func execEnc(line string) h.Result {
 	for _, op := range ops[1:] {
 		f := strings.Fields(op)
 		switch {
+		case f[0] == "X" && len(f) == 1:
+			if other == nil {
+				tic2 := *src
+				tty2 := NewFakeTty(tw, 2)
+				scr2, err := tcell.NewTerminfoScreenFromTtyTerminfo(tty2, &tic2)
+				if err != nil || scr2.Init() != nil {
+					obs = append(obs, "init-failed")
+					continue
+				}
+				defer scr2.Fini()
+				scr2.Show()
+				other = &encRun{scr: scr2, tty: tty2, refs: map[int][2][]byte{}, fb: map[rune]string{}}
+				for k, v := range defaultRuneFallbacks {
+					other.fb[k] = v
+				}
+				e.tags["second-screen"] = true
+			}
+			e.scr, other.scr = other.scr, e.scr
+			e.tty, other.tty = other.tty, e.tty
+			e.refs, other.refs = other.refs, e.refs
+			e.fb, other.fb = other.fb, e.fb
+			scr = e.scr
 		case f[0] == "D" && len(f) == 5:
 			x, m, comb := h.Atoi(f[1]), rune(h.Atoi(f[2])), toRunes(h.IntList(f[3]))
 			got, ok := e.payload(x, m, comb)
@@ -624,36 +664,100 @@ func genEnc(g *h.Gen) {
 				d.main, cd.encStr(rune(d.main)), d.main, cd.encStr(rune(d.main)))
 		}
 	}
+	// 0b. two screens in one process: registrations on one screen, draws and CanDisplay on the other (created before or after)
+	{
+		var defs []int
+		for k := range defaultRuneFallbacks {
+			defs = append(defs, int(k))
+		}
+		sort.Ints(defs)
+		twoCS := []string{"US-ASCII", "US-ASCII", "ISO8859-1", "KOI8-R", "ISO8859-2", "ISO8859-15", "GBK", "SHIFT_JIS"}
+		twoEnt := []string{"sun", "sun", "sun", "linux", "beterm", "xterm", "vt220", "ansi"}
+		for i := g.N(60, 2000); i > 0 && len(defs) > 0; i-- {
+			cs := h.Pick(r, twoCS)
+			cd := newCodec(cs)
+			if cd == nil {
+				continue
+			}
+			tw := r.Range(3, 6)
+			ops := []string{fmt.Sprintf("cfg %s %s %s %d", v, h.Pick(r, twoEnt), cs, tw)}
+			rs := []int{h.Pick(r, defs), h.Pick(r, defs)}
+			if r.Chance(40) {
+				rs = append(rs, h.Pick(r, []int{0x4e16, 0x20ac, 0x3b1, 0x2603, 0xe9}))
+			}
+			draw := func(m int) string {
+				return fmt.Sprintf("D %d %d - %s", r.Range(0, tw-2), m, encList(cd, []rune{visibleMain(rune(m))}))
+			}
+			can := func(m int) string { return fmt.Sprintf("C %d %d %s", m, r.Intn(2), cd.encStr(rune(m))) }
+			change := func(m int) string {
+				if r.Chance(60) {
+					return fmt.Sprintf("U %d", m)
+				}
+				fb := h.Pick(r, []string{"*", "+", "o", "!"})
+				if runewidth.RuneWidth(rune(m)) > 1 {
+					fb = "ab"
+				}
+				return fmt.Sprintf("R %d %s", m, h.Hex([]byte(fb)))
+			}
+			if r.Bool() { // the other screen exists before the first registration change
+				ops = append(ops, "X")
+				if r.Bool() {
+					ops = append(ops, draw(h.Pick(r, rs)))
+				}
+				ops = append(ops, "X")
+			}
+			for k := r.Range(1, 3); k > 0; k-- {
+				ops = append(ops, change(h.Pick(r, rs)))
+				if r.Chance(30) {
+					ops = append(ops, draw(h.Pick(r, rs)))
+				}
+			}
+			ops = append(ops, "X")
+			for _, m := range rs {
+				ops = append(ops, draw(m), can(m), can(m))
+			}
+			if r.Chance(50) { // … and the first screen keeps ITS registrations
+				if r.Bool() {
+					ops = append(ops, change(h.Pick(r, rs)))
+				}
+				ops = append(ops, "X")
+				for _, m := range rs {
+					ops = append(ops, draw(m), can(m))
+				}
+			}
+			g.Emit("enc %s", strings.Join(ops, "; "))
+		}
+	}
 	// 1. sweeps: xterm (has an ACS map) over the BMP; an entry without ACS map and vt220 (padding in smacs) over the special runes
+	perLine := 4 // B ops per line (one screen per line)
+	emitSweep := func(cs string, cd *codec, entry string, runes []int, tw int) {
+		for i := 0; i < len(runes); {
+			var ops []string
+			ops = append(ops, fmt.Sprintf("cfg %s %s %s %d", v, entry, cs, tw))
+			for k := 0; k < perLine && i < len(runes); k++ {
+				// maximal arithmetic run of at most 64 runes
+				j, step := i+1, 1
+				if j < len(runes) {
+					step = runes[j] - runes[i]
+				}
+				for j < len(runes) && j-i < 64 && runes[j]-runes[j-1] == step {
+					j++
+				}
+				rs := make([]rune, j-i)
+				for q := range rs {
+					rs[q] = rune(runes[i+q])
+				}
+				x := r.Range(0, tw-2)
+				ops = append(ops, fmt.Sprintf("B %d %d %d %d %s", x, runes[i], step, j-i, encList(cd, rs)))
+				i = j
+			}
+			g.Emit("enc %s", strings.Join(ops, "; "))
+		}
+	}
 	for ci, cs := range charsets {
 		cd := newCodec(cs)
 		if cd == nil {
 			continue
-		}
-		cs := cs
-		emitSweep := func(entry string, runes []int, tw int) {
-			for i := 0; i < len(runes); {
-				var ops []string
-				ops = append(ops, fmt.Sprintf("cfg %s %s %s %d", v, entry, cs, tw))
-				for k := 0; k < 4 && i < len(runes); k++ {
-					// maximal arithmetic run of at most 64 runes
-					j, step := i+1, 1
-					if j < len(runes) {
-						step = runes[j] - runes[i]
-					}
-					for j < len(runes) && j-i < 64 && runes[j]-runes[j-1] == step {
-						j++
-					}
-					rs := make([]rune, j-i)
-					for q := range rs {
-						rs[q] = rune(runes[i+q])
-					}
-					x := r.Range(0, tw-2)
-					ops = append(ops, fmt.Sprintf("B %d %d %d %d %s", x, runes[i], step, j-i, encList(cd, rs)))
-					i = j
-				}
-				g.Emit("enc %s", strings.Join(ops, "; "))
-			}
 		}
 		var sweep []int
 		for c := 0x20; c < 0x10000; c++ {
@@ -665,20 +769,76 @@ func genEnc(g *h.Gen) {
 				sweep = append(sweep, c)
 			}
 		}
-		emitSweep("xterm", sweep, 6)
-		emitSweep("xterm", special, 4)
-		emitSweep("sun", special, 4)
-		emitSweep("vt220", special, 4)
-		emitSweep("linux", special, 4)
+		emitSweep(cs, cd, "xterm", sweep, 6)
+		emitSweep(cs, cd, "xterm", special, 4)
+		emitSweep(cs, cd, "sun", special, 4)
+		emitSweep(cs, cd, "vt220", special, 4)
+		emitSweep(cs, cd, "linux", special, 4)
+	}
+	// 1b. the alias spellings encoding/all.go registers (8859-9, ISO-8859-9, SJIS, EUCJP, EUCKR, 646, ISO646, ASCII, UTF8): the
+	// name selects the same code page as the canonical spelling.  Single-byte code pages: every rune some single-byte
+	// charset has (the runes in which two such code pages can differ) plus the special runes; multi-byte ones: Latin /
+	// Greek / Cyrillic, the special runes and a stride through the CJK part of the BMP (thorough: a denser stride, the whole
+	// single-byte repertoire).
+	aliases := refAliasesOf(c17Charsets)
+	perLine = 32 // scattered runes make short arithmetic runs: more of them per screen
+	for ai, al := range aliases {
+		cd := newCodec(al)
+		if cd == nil {
+			continue
+		}
+		set := map[int]bool{}
+		for _, c := range special {
+			set[c] = true
+		}
+		stride, part := 47, 6
+		if g.Thorough() {
+			stride, part = 7, 1
+		}
+		switch {
+		case refIsMulti(al):
+			for c := 0xa0; c < 0x500; c++ {
+				set[c] = true
+			}
+			for c := 0x3000 + ai%stride; c < 0x10000; c += stride {
+				set[c] = true
+			}
+		case !refIsUTF8(al) && !refIsASCII(al):
+			// the charset's own repertoire (a name bound to another code page cannot encode all of it the same way) …
+			for _, c := range refRepertoire(al) {
+				set[c] = true
+			}
+			// … and a rotating slice of what the other single-byte code pages have
+			for k, c := range refSingleRepertoire() {
+				if k%part == ai%part {
+					set[c] = true
+				}
+			}
+		}
+		var runes []int
+		for c := range set {
+			if c >= 0x20 && !(c >= 0xd800 && c < 0xe000) {
+				runes = append(runes, c)
+			}
+		}
+		sort.Ints(runes)
+		emitSweep(al, cd, "xterm", runes, 6)
 	}
 	// 2. single cells: combining, wide, last column, fallback registration histories, random entries
 	entries := []string{"xterm", "xterm-256color", "sun", "linux", "vt220", "ansi", "wy60", "vt52", "beterm", "screen", "st", "aixterm", "kterm"}
 	n := g.N(600, 20000)
 	combPool := []int{0x301, 0x308, 0x20dd, 0x200d, 'x', 0xfe0f, 0x2500, 0xe9, 0x4e16, 0x64b, 0x650, 0x301}
 	fbStrings := []string{"*", "+", "o", "ab", "!"}
+	histCharsets := append([]string{}, charsets...)
+	for i := 0; i < 6 && len(aliases) > 0; i++ { // alias spellings: a fifth of the histories
+		histCharsets = append(histCharsets, h.Pick(r, aliases))
+	}
 	for i := 0; i < n; i++ {
-		cs := h.Pick(r, charsets)
+		cs := h.Pick(r, histCharsets)
 		cd := newCodec(cs)
+		if cd == nil {
+			continue
+		}
 		entry := h.Pick(r, entries)
 		tw := r.Range(2, 6)
 		ops := []string{fmt.Sprintf("cfg %s %s %s %d", v, entry, cs, tw)}
@@ -698,6 +858,11 @@ func genEnc(g *h.Gen) {
 		}
 		var touched []int
 		for j := 0; j < nops; j++ {
+			if r.Chance(6) && entry != "wy60" && entry != "vt52" && entry != "vt220" {
+				// the other screen of the case: its own registrations (not on the entries whose initialisation strings carry
+				// padding delays: a second Init would double the 0.2 s such a line costs)
+				ops = append(ops, "X")
+			}
 			switch k := r.Intn(100); {
 			case k < 50:
 				m := pick()
